@@ -19,7 +19,7 @@ import (
 
 type constTable struct {
 	isMap bool
-	vals  map[int64]*big.Int
+	vals  map[string]*big.Int // key (decimal) -> value
 	n     int64 // array length (arrays)
 	lo    *big.Int
 	hi    *big.Int
@@ -43,7 +43,7 @@ func constTableOf(p *Prog, g *ssa.Global) *constTable {
 	if cl == nil {
 		return nil
 	}
-	t := &constTable{vals: map[int64]*big.Int{}, lo: big.NewInt(0), hi: big.NewInt(0)}
+	t := &constTable{vals: map[string]*big.Int{}, lo: big.NewInt(0), hi: big.NewInt(0)}
 	switch u := g.Type().Underlying().(*types.Pointer).Elem().Underlying().(type) {
 	case *types.Map:
 		t.isMap = true
@@ -68,12 +68,16 @@ func constTableOf(p *Prog, g *ssa.Global) *constTable {
 		}
 		return nil, false
 	}
-	next := int64(0)
+	next := big.NewInt(0)
 	for _, e := range cl.Elts {
-		var k int64
+		var k *big.Int
 		var ve ast.Expr
 		if kv, ok := e.(*ast.KeyValueExpr); ok {
-			kk, ok := constInt64(pk, kv.Key)
+			kc, ok := constOf(pk, kv.Key)
+			if !ok {
+				return nil
+			}
+			kk, ok := constValInt(kc)
 			if !ok {
 				return nil
 			}
@@ -82,14 +86,14 @@ func constTableOf(p *Prog, g *ssa.Global) *constTable {
 			if t.isMap {
 				return nil
 			}
-			k, ve = next, e
+			k, ve = new(big.Int).Set(next), e
 		}
-		next = k + 1
+		next = new(big.Int).Add(k, big.NewInt(1))
 		v, ok := val(ve)
 		if !ok {
 			return nil
 		}
-		t.vals[k] = v
+		t.vals[k.String()] = v
 		if v.Cmp(t.lo) < 0 {
 			t.lo = v
 		}
@@ -104,11 +108,25 @@ func constTableOf(p *Prog, g *ssa.Global) *constTable {
 	return t
 }
 
-func (t *constTable) at(k int64) *big.Int {
-	if v, ok := t.vals[k]; ok {
+func (t *constTable) at(k *big.Int) *big.Int {
+	if v, ok := t.vals[k.String()]; ok {
 		return v
 	}
 	return big.NewInt(0)
+}
+
+func (t *constTable) has(k *big.Int) bool {
+	_, ok := t.vals[k.String()]
+	return ok
+}
+
+func (t *constTable) keys() []*big.Int {
+	var out []*big.Int
+	for k := range t.vals {
+		v, _ := new(big.Int).SetString(k, 10)
+		out = append(out, v)
+	}
+	return out
 }
 
 // globalNeverWritten: the global is only loaded from (lookups, indexing, len, range): no store to it
@@ -149,6 +167,9 @@ func globalNeverWritten(p *Prog, g *ssa.Global) bool {
 							// &g[i]: only loaded
 							if x.Referrers() != nil {
 								for _, r := range *x.Referrers() {
+									if st, isSt := r.(*ssa.Store); isSt && st.Addr == ssa.Value(x) && fn.Name() == "init" {
+										continue // the package initialiser writes the literal's elements
+									}
 									if ld, ok := r.(*ssa.UnOp); !ok || ld.Op != token.MUL {
 										if _, dbg := r.(*ssa.DebugRef); !dbg {
 											return false
